@@ -30,6 +30,7 @@ pub struct C06 {
     substances: Vec<String>,
     dump: Dump,
     ctx: Lazy<Context>,
+    cgs: Lazy<Context>,
 }
 
 fn p10(e: i64) -> Rat {
@@ -101,7 +102,8 @@ impl C06 {
         fams.add("digits/base modes", vec![units.len() as u64 / 4 + 1, 7, 3]);
         fams.add("substances", vec![substances.len() as u64, 4]);
         fams.add("dimensionless conversion targets with constants", vec![DIMLESS.len() as u64]);
-        C06 { fams, units, base, mags, combos, core, substances, dump, ctx: Lazy::new() }
+        fams.add("a CGS-style database in which newton, joule, ... are not 1 in base units", vec![CGS_QUERIES.len() as u64]);
+        C06 { fams, units, base, mags, combos, core, substances, dump, ctx: Lazy::new(), cgs: Lazy::new() }
     }
 }
 
@@ -321,6 +323,16 @@ const DIMLESS: [(&str, i64, i64); 9] = [
     ("5 -> -2", 5, 1),
 ];
 
+/// A small CGS-style database in which the names the display code knows about (newton, joule,
+/// pascal, watt, ..., the gram/kilogram and SI-prefix logic) are NOT worth 1 in base units.
+/// Display consistency is a property of every database a Context can hold, not of the bundled one.
+const CGS_DB: &str = "g !gram\ncm !centimeter\ns !second\nA !ampere\nK !kelvin\nmilli- 1e-3\nkilo- 1e3\nmega- 1e6\nm-- milli\nk-- kilo\nM-- mega\ndyne g cm / s^2\nnewton 1e5 dyne\nerg dyne cm\njoule 1e7 erg\npascal 10 dyne / cm^2\nwatt 1e7 erg / s\ncoulomb 1|10 A s\nvolt joule / coulomb\nohm volt / A\nhertz 1 / s\nlength ? cm\nmass ? g\ntime ? s\nforce ? mass length / time^2\nenergy ? force length\npower ? energy / time\npressure ? force / length^2\n";
+const CGS_QUERIES: [&str; 30] = [
+    "1 g cm / s^2", "3 newton", "2 joule", "5 dyne", "1 erg", "7 g cm^2 / s^2", "1 pascal", "2 g / (cm s^2)", "1 watt", "4 g cm^2 / s^3",
+    "1 volt", "1 coulomb", "3 A s", "1500 g", "0.001 cm", "1 kg", "3 kilonewton", "1e7 erg", "1e5 dyne", "12 g cm^2 / (s^3 A)",
+    "1 ohm", "1 hertz", "1|3 joule", "1e-9 newton", "1e12 g cm / s^2", "2 newton cm", "3 joule / s", "1 g cm^2 / (s^3 A^2)", "0.5 pascal cm^2", "1e6 g",
+];
+
 const MODES: [&str; 7] = ["digits 10", "digits", "sci", "eng", "frac", "base 16", "digits 3 base 7"];
 
 impl C06 {
@@ -390,7 +402,7 @@ impl Space for C06 {
         Meta {
             id: "C06",
             level: "exploration",
-            rule: "(a) every exact registry unit and base unit x magnitudes {0.999, 1, 1000} x 10^(3k) (every SI-prefix boundary, k in -10..10 thorough) x powers {1,2,3,-1}; (b) every product of up to 3 (thorough 4) distinct base units with exponents in {-2,-1,1,2} (all derived-unit regroupings) x {1, 1500}; (c) conversions of 3 values into 19 target shapes (constants, 1|3, sign, squares, products, quotients, sums, differences, mod, and/or/xor and shift constants) over a 10-unit core; (d) digits/sci/eng/frac/base modes; (e) every substance x 4 amounts, every reported property and unit-list/duration entry. Oracle: the reply's numeral (independent reader) x factor/divfactor x product of the printed unit names resolved with Context::lookup must equal the quantity computed by the harness from the registry dump, exactly for exact numerals and within one last-digit unit otherwise; raw_dimensions and quantity must be those of the result. Non-trivial = a numeric reply was judged; distinct by query text".into(),
+            rule: "(a) every exact registry unit and base unit x magnitudes {0.999, 1, 1000} x 10^(3k) (every SI-prefix boundary, k in -10..10 thorough) x powers {1,2,3,-1}; (b) every product of up to 3 (thorough 4) distinct base units with exponents in {-2,-1,1,2} (all derived-unit regroupings) x {1, 1500}; (c) conversions of 3 values into 19 target shapes (constants, 1|3, sign, squares, products, quotients, sums, differences, mod, and/or/xor and shift constants) over a 10-unit core; (d) digits/sci/eng/frac/base modes; (e2) 30 results in a second, CGS-style database in which newton, joule, pascal, watt, ... are not worth 1 in base units (regrouping and prefix logic must not assume the bundled values); (e) every substance x 4 amounts, every reported property and unit-list/duration entry. Oracle: the reply's numeral (independent reader) x factor/divfactor x product of the printed unit names resolved with Context::lookup must equal the quantity computed by the harness from the registry dump, exactly for exact numerals and within one last-digit unit otherwise; raw_dimensions and quantity must be those of the result. Non-trivial = a numeric reply was judged; distinct by query text".into(),
             assumptions: vec![
                 "temperature-scale replies are decided by C10".into(),
                 "float-valued units are skipped".into(),
@@ -404,6 +416,9 @@ impl Space for C06 {
         self.fams.total()
     }
     fn describe(&self, idx: u64) -> String {
+        if self.fams.locate(idx).0 == 6 {
+            return format!("CGS database: {}", CGS_QUERIES[self.fams.locate(idx).1[0] as usize]);
+        }
         self.query(idx).map(|q| q.0).unwrap_or_else(|| "(skipped)".into())
     }
     fn sample_indices(&self) -> Vec<u64> {
@@ -414,8 +429,36 @@ impl Space for C06 {
     }
     fn reset(&mut self) {
         self.ctx.clear();
+        self.cgs.clear();
     }
     fn run(&mut self, idx: u64) -> CaseOut {
+        if self.fams.locate(idx).0 == 6 {
+            let q = CGS_QUERIES[self.fams.locate(idx).1[0] as usize];
+            let ctx = self.cgs.get(|| {
+                let mut c = Context::new();
+                c.use_humanize = false;
+                c.load_definitions(CGS_DB).expect("the CGS database must load");
+                c
+            });
+            let mut out = CaseOut::ok("other database").key(hash64(&("cgs", q)));
+            match eval_q(ctx, q) {
+                Ok(QueryReply::Number(p)) => {
+                    let raw = p.raw_value.clone().unwrap();
+                    match numeric_to_rat(&raw.value) {
+                        Some(v) => {
+                            let want = (v, dims_of(&raw));
+                            for (sg, dt) in judge_parts(ctx, &p, &want, 10, false, q) {
+                                out = out.viol(format!("{} (CGS database)", sg), dt);
+                            }
+                        }
+                        None => out.outcome = "other database: float".into(),
+                    }
+                }
+                Ok(o) => out = out.viol("unexpected reply in the CGS database", format!("`{}` -> {}", q, reply_kind(&o))),
+                Err(e) => out = out.viol("query refused in the CGS database", format!("`{}`: {}", q, e)),
+            }
+            return out;
+        }
         let (q, want, base, kind) = match self.query(idx) {
             Some(x) => x,
             None => return CaseOut::ok("skipped"),
